@@ -42,6 +42,40 @@ class Ref:
         self.box[self.key] = v
 
 
+class CxxModule:
+    """the functions of the C++ library under the module interface the evaluator expects: qualified name -> body,
+    parameter names, parameter types and the indexes of the parameters bound by (non-const) reference.  Overloads are
+    kept apart by arity ('name/2'); the plain name is the first overload."""
+
+    def __init__(self, lib, prefixes):
+        from types import SimpleNamespace
+        self.funcs = {}
+        self.overloads = {}
+        for q in list(lib.funcs):
+            if not q.startswith(tuple(prefixes)):
+                continue
+            for f in lib.fns(q):                 # instantiations, not the template pattern
+                ns = SimpleNamespace(params=[p for p, _t in f.params], ptypes=[t for _p, t in f.params], body=f.body, loc=f.loc,
+                                     byref=tuple(i for i, (_p, t) in enumerate(f.params) if t and '&' in t and not t.strip().startswith('const ')))
+                self.funcs.setdefault(q, ns)
+                self.funcs.setdefault('%s/%d' % (q, len(f.params)), ns)
+                self.overloads.setdefault('%s/%d' % (q, len(f.params)), []).append(ns)
+
+    def select(self, qname, nargs, argtypes):
+        """the overload / instantiation whose reference parameters have the integer types of the arguments bound to them"""
+        from .cxx import int_type
+        cands = self.overloads.get('%s/%d' % (qname, nargs), [])
+        for ns in cands:
+            ok = True
+            for i in ns.byref:
+                if i < len(argtypes) and argtypes[i] is not None:
+                    if int_type((ns.ptypes[i] or '').replace('&', '').strip()) != argtypes[i]:
+                        ok = False
+            if ok:
+                return ns
+        return cands[0] if cands else None
+
+
 class Raised(Exception):
     def __init__(self, what, loc):
         Exception.__init__(self, what)
@@ -62,16 +96,56 @@ class _Continue(Exception):
 
 
 class AEval:
-    def __init__(self, module=None, intrinsics=None, max_depth=6, max_steps=200000):
+    def __init__(self, module=None, intrinsics=None, max_depth=6, max_steps=200000, typed=False):
         self.module = module
         self.intr = intrinsics or {}
         self.max_depth = max_depth
         self.max_steps = max_steps
         self.steps = 0
+        # typed: C++ IR - integer locals, parameters and conversions wrap to their declared width; parameters declared as
+        # non-const references are bound to the caller's storage cell
+        self.typed = typed
+
+    @staticmethod
+    def _wrap(v, it):
+        if it is None or isinstance(v, bool) or not isinstance(v, int):
+            return v
+        bits, signed = it
+        v &= (1 << bits) - 1
+        if signed and v >= 1 << (bits - 1):
+            v -= 1 << bits
+        return v
+
+    def _ity(self, ty):
+        if not self.typed or not ty:
+            return None
+        from .cxx import int_type
+        return int_type(ty.replace('&', '').strip())
+
+    def ref_of(self, e, env, depth):
+        """storage cell of an l-value expression"""
+        while e.k == 'cast':
+            e = e.a[2]
+        if e.k == 'var' and e.a[0] in env:
+            cur = env[e.a[0]]
+            return cur if isinstance(cur, Ref) and env.get('\x00ref:' + e.a[0]) else Ref(env, e.a[0])
+        if e.k == 'index':
+            return Ref(self.ev(e.a[0], env, depth), self.ev(e.a[1], env, depth))
+        if e.k == 'field':
+            o = self.ev(e.a[0], env, depth)
+            if isinstance(o, AObj):
+                return Ref(o.attrs, e.a[1])
+        if e.k == 'deref':
+            p = self.ev(e.a[0], env, depth)
+            if isinstance(p, Ref):
+                return p
+        raise AnalysisError('abstract evaluation: %s is passed by reference but is not a storage cell (%s)' % (show(e), e.loc))
 
     # -- calls --------------------------------------------------------------------------------
-    def call_function(self, qname, args, depth=0, recv=None):
-        f = self.module.funcs.get(qname) if self.module is not None else None
+    def call_function(self, qname, args, depth=0, recv=None, chosen=None):
+        f = chosen
+        if f is None and self.module is not None:
+            f = self.module.funcs.get('%s/%d' % (qname, len(args))) or self.module.funcs.get(qname)
         if f is None:
             raise AnalysisError('abstract evaluation: no body for %s' % qname)
         if depth > self.max_depth:
@@ -85,7 +159,16 @@ class AEval:
             env['self'] = recv          # C++ member function: `this`
         if len(params) != len(args):
             raise AnalysisError('abstract evaluation: %s takes %d arguments, %d given' % (qname, len(params), len(args)))
-        env.update(dict(zip(params, args)))
+        ptypes = getattr(f, 'ptypes', None) or [None] * len(params)
+        for p_, v_, t_ in zip(params, args, ptypes):
+            it = self._ity(t_)
+            if isinstance(v_, Ref) and t_ and '&' in t_:
+                env[p_] = v_
+                env['\x00ref:' + p_] = True
+            else:
+                env[p_] = self._wrap(v_, it)
+            if it is not None:
+                env['\x00ty:' + p_] = it
         try:
             self.block(f.body, env, depth)
         except _Return as r:
@@ -109,7 +192,11 @@ class AEval:
                 v = self.binop(a[2][:-1], cur, v, s.loc)
             self.store(a[0], v, env, depth)
         elif k == 'decl':
-            env[a[0]] = self.ev(a[2], env, depth) if a[2] is not None else None
+            it = self._ity(a[1])
+            env[a[0]] = self._wrap(self.ev(a[2], env, depth), it) if a[2] is not None else None
+            env.pop('\x00ref:' + a[0], None)
+            if it is not None:
+                env['\x00ty:' + a[0]] = it
         elif k == 'expr':
             self.ev(a[0], env, depth)
         elif k == 'if':
@@ -166,7 +253,11 @@ class AEval:
 
     def store(self, tgt, v, env, depth):
         if tgt.k == 'var':
-            env[tgt.a[0]] = v
+            v = self._wrap(v, env.get('\x00ty:' + tgt.a[0])) if self.typed else v
+            if env.get('\x00ref:' + tgt.a[0]) and isinstance(env.get(tgt.a[0]), Ref):
+                env[tgt.a[0]].set(v)
+            else:
+                env[tgt.a[0]] = v
         elif tgt.k == 'field':
             o = self.ev(tgt.a[0], env, depth)
             if not isinstance(o, AObj):
@@ -242,7 +333,10 @@ class AEval:
             return None
         if k == 'var':
             if a[0] in env:
-                return env[a[0]]
+                v = env[a[0]]
+                if isinstance(v, Ref) and env.get('\x00ref:' + a[0]):
+                    return v.get()
+                return v
             if a[0] in ('True', 'False', 'None'):
                 return {'True': True, 'False': False, 'None': None}[a[0]]
             raise AnalysisError('abstract evaluation: unbound name %s at %s' % (a[0], e.loc))
@@ -281,7 +375,8 @@ class AEval:
         if k == 'cond':
             return self.ev(a[1], env, depth) if self.truth(self.ev(a[0], env, depth)) else self.ev(a[2], env, depth)
         if k == 'cast':
-            return self.ev(a[2], env, depth)
+            v = self.ev(a[2], env, depth)
+            return self._wrap(v, (a[0], a[1])) if (self.typed and isinstance(a[0], int)) else v
         if k == 'ptrcast':
             return self.ev(a[1], env, depth)
         if k == 'addr':
@@ -352,7 +447,22 @@ class AEval:
                     if q and self.module is not None and q in self.module.funcs:
                         return self.call_function(q, args, depth + 1, recv=recv)
             raise AnalysisError('abstract evaluation: method %s on %r at %s' % (name, recv, e.loc))
-        args = [self.ev(x, env, depth) for x in args_e]
+        callee = None
+        if self.typed and self.module is not None:
+            if hasattr(self.module, 'select'):
+                at = []
+                for x in args_e:
+                    y = x
+                    while y.k == 'cast':
+                        y = y.a[2]
+                    at.append(env.get('\x00ty:' + y.a[0]) if y.k == 'var' else None)
+                callee = self.module.select(name, len(args_e), at)
+            if callee is None:
+                callee = self.module.funcs.get('%s/%d' % (name, len(args_e))) or self.module.funcs.get(name)
+        byref = getattr(callee, 'byref', ()) if callee is not None else ()
+        args = [self.ref_of(x, env, depth) if i in byref else self.ev(x, env, depth) for i, x in enumerate(args_e)]
+        if callee is not None:
+            return self.call_function(name, args, depth + 1, chosen=callee)
         if name == 'len':
             return len(args[0])
         if name == 'range':
